@@ -871,6 +871,12 @@ def split_tuple_assignments(fn: ast.FunctionDef) -> bool:
                     out.append(ast.copy_location(ast.Assign(targets=[t], value=v), st))
                 changed = True
                 continue
+            # `self._a, self._b = x, y` with plain locals / constants on the right: nothing a store could change is read
+            if isinstance(st, ast.Assign) and len(st.targets) == 1 and isinstance(st.targets[0], ast.Tuple) and isinstance(st.value, ast.Tuple) and len(st.targets[0].elts) == len(st.value.elts) and all(isinstance(e, ast.Name) or (isinstance(e, ast.Attribute) and isinstance(e.value, ast.Name)) for e in st.targets[0].elts) and any(isinstance(e, ast.Attribute) for e in st.targets[0].elts) and all(isinstance(e, (ast.Name, ast.Constant)) for e in st.value.elts) and not ({e.id for e in st.targets[0].elts if isinstance(e, ast.Name)} & {e.id for e in st.value.elts if isinstance(e, ast.Name)}):
+                for t, v in zip(st.targets[0].elts, st.value.elts):
+                    out.append(ast.copy_location(ast.Assign(targets=[t], value=v), st))
+                changed = True
+                continue
             out.append(st)
         return out
 
@@ -902,6 +908,14 @@ def split_conditional_assignments(fn: ast.FunctionDef) -> bool:
                 a, b = clone(st), clone(st)
                 a.value, b.value = val.body, val.orelse
                 out.append(ast.copy_location(ast.If(test=val.test, body=[a], orelse=[b]), st))
+                changed = True
+                continue
+            # `(A if C else B).append(x)` -> `if C: A.append(x)` / `else: B.append(x)`: the receiver is chosen first
+            if isinstance(st, ast.Expr) and isinstance(st.value, ast.Call) and isinstance(st.value.func, ast.Attribute) and isinstance(st.value.func.value, ast.IfExp):
+                ie = st.value.func.value
+                a, b = clone(st), clone(st)
+                a.value.func.value, b.value.func.value = clone(ie.body), clone(ie.orelse)
+                out.append(ast.copy_location(ast.If(test=ie.test, body=[a], orelse=[b]), st))
                 changed = True
                 continue
             out.append(st)
@@ -949,6 +963,62 @@ def _simplify_identity_tests(stmts: List[ast.stmt]) -> List[ast.stmt]:
         if isinstance(st, (ast.Return, ast.Raise)):
             break
     return out
+
+
+def tuple_table_to_dict(fn: ast.FunctionDef) -> bool:
+    """`next((V for K, V in T if X == K), D)` with T a literal tuple/list of (constant key, value) pairs (inline, or a
+    local bound once to it) -> `{k1: v1, ...}.get(X, D)`: the first pair whose key equals X, i.e. a dict lookup when the
+    keys are distinct constants.  The dict-dispatch step then takes it from there."""
+    changed = False
+    binds: Dict[str, List[ast.AST]] = {}
+    for n in ast.walk(fn):
+        if isinstance(n, ast.Assign) and len(n.targets) == 1 and isinstance(n.targets[0], ast.Name):
+            binds.setdefault(n.targets[0].id, []).append(n.value)
+        elif isinstance(n, ast.AnnAssign) and isinstance(n.target, ast.Name) and n.value is not None:
+            binds.setdefault(n.target.id, []).append(n.value)
+    stores: Dict[str, int] = {}
+    for n in ast.walk(fn):
+        if isinstance(n, ast.Name) and isinstance(n.ctx, (ast.Store, ast.Del)):
+            stores[n.id] = stores.get(n.id, 0) + 1
+
+    class _T(ast.NodeTransformer):
+        def visit_Call(self, node: ast.Call):
+            nonlocal changed
+            self.generic_visit(node)
+            if not (isinstance(node.func, ast.Name) and node.func.id == "next" and 1 <= len(node.args) <= 2 and not node.keywords and isinstance(node.args[0], ast.GeneratorExp)):
+                return node
+            g = node.args[0]
+            if len(g.generators) != 1 or len(g.generators[0].ifs) != 1:
+                return node
+            comp = g.generators[0]
+            if not (isinstance(comp.target, ast.Tuple) and len(comp.target.elts) == 2 and all(isinstance(e, ast.Name) for e in comp.target.elts)):
+                return node
+            kv, vv = comp.target.elts[0].id, comp.target.elts[1].id
+            if not (isinstance(g.elt, ast.Name) and g.elt.id == vv):
+                return node
+            t = comp.ifs[0]
+            if not (isinstance(t, ast.Compare) and len(t.ops) == 1 and isinstance(t.ops[0], ast.Eq)):
+                return node
+            a, b = t.left, t.comparators[0]
+            x = b if (isinstance(a, ast.Name) and a.id == kv) else a if (isinstance(b, ast.Name) and b.id == kv) else None
+            if x is None or any(isinstance(z, ast.Name) and z.id in (kv, vv) for z in ast.walk(x)) or not _pure_arg(x):
+                return node
+            table = comp.iter
+            if isinstance(table, ast.Name) and stores.get(table.id) == 1 and len(binds.get(table.id, [])) == 1:
+                table = binds[table.id][0]
+            if not (isinstance(table, (ast.Tuple, ast.List)) and table.elts and all(isinstance(e, ast.Tuple) and len(e.elts) == 2 and isinstance(e.elts[0], ast.Constant) for e in table.elts)):
+                return node
+            if len({repr(e.elts[0].value) for e in table.elts}) != len(table.elts):
+                return node
+            d = ast.Dict(keys=[clone(e.elts[0]) for e in table.elts], values=[clone(e.elts[1]) for e in table.elts])
+            call = ast.Call(func=ast.Attribute(value=d, attr="get", ctx=ast.Load()), args=[clone(x)] + ([node.args[1]] if len(node.args) == 2 else []), keywords=[])
+            changed = True
+            return ast.copy_location(call, node)
+
+    _T().visit(fn)
+    if changed:
+        ast.fix_missing_locations(fn)
+    return changed
 
 
 def split_dict_dispatch(fn: ast.FunctionDef) -> bool:
@@ -1094,6 +1164,7 @@ def normalised(ctx: Ctx, f: Func, steps: str = "delegation,tailcalls,calls,unrol
             mconsts = {k: v[0] for k, v in f.module.consts.items() if len(v) == 1 and isinstance(v[0], (ast.Tuple, ast.List))}
             round_changed |= unroll_literal_loops(fn, mconsts)
         if "dispatch" in want:
+            round_changed |= tuple_table_to_dict(fn)
             round_changed |= split_dict_dispatch(fn)
         if "aliasif" in want:
             round_changed |= split_alias_choice(fn)
